@@ -403,6 +403,7 @@ func RunFsOp(fs filesystem.Filespace, op FsOp) (r FsResult) {
 
 func writeChunked(w io.Writer, data []byte, chunks []int) error {
 	i := 0
+	var scratch []byte
 	for len(data) > 0 || i < len(chunks) {
 		n := len(data)
 		if i < len(chunks) {
@@ -412,7 +413,17 @@ func writeChunked(w io.Writer, data []byte, chunks []int) error {
 			}
 		}
 		i++
-		k, err := w.Write(data[:n])
+		// one buffer reused for every chunk and scribbled over after each call, as io.Copy
+		// and every buffered producer do: a Writer must not retain p (io.Writer contract)
+		if cap(scratch) < n {
+			scratch = make([]byte, n)
+		}
+		buf := scratch[:n]
+		copy(buf, data[:n])
+		k, err := w.Write(buf)
+		for j := range buf {
+			buf[j] = 0xA5
+		}
 		if err != nil {
 			return err
 		}
